@@ -148,6 +148,38 @@ def gen_cases(run):
         cases.append({'key': '%s%d' % (stream, i), 'src': src, 'cfg': None, 'stream': stream})
         for _ in range(1 if quick else 2):
             cases.append({'key': '%s%d:rc' % (stream, i), 'src': src, 'cfg': L.random_config(rng), 'stream': stream})
+    # programs that already mention tmp_1NNN names: user code, and real two-pass pipelines
+    # (pass 1 under a random configuration by the transformer itself, its output is the input of the case)
+    n_pipe = 80 if quick else 800
+    made = 0
+    for i in range(n_pipe * 3):
+        if made >= n_pipe:
+            break
+        g = G.Gen(rng, size=rng.randint(2, 7), depth=rng.randint(1, 3), temp_names=(rng.random() < 0.3),
+                  temp_hi=True, shallow_bias=rng.choice([0.2, 0.6, 0.95]), raising=rng.choice([0.0, 0.05]))
+        src = g.program()
+        try:
+            fn1 = ast.parse(src).body[0]
+        except SyntaxError:
+            continue
+        if rng.random() < 0.7:
+            r1 = L.real_anf(fn1, L.random_config(rng))
+            if r1[0] != 'ok' or not isinstance(r1[1], ast.FunctionDef) or not temp_targets(r1[1]):
+                continue
+            try:
+                src = ast.unparse(ast.fix_missing_locations(r1[1])) + '\n'
+                ast.parse(src)
+            except Exception:
+                continue
+            feats['two-pass-pipeline'] += 1
+        elif not re.search(r'\btmp_\d+\b', src):
+            continue
+        else:
+            feats['user-temp-names'] += 1
+        made += 1
+        cases.append({'key': 'pipe%d' % i, 'src': src, 'cfg': None, 'stream': 'pipeline'})
+        if rng.random() < 0.4:
+            cases.append({'key': 'pipe%d:rc' % i, 'src': src, 'cfg': L.random_config(rng), 'stream': 'pipeline'})
     return cases, feats
 
 
@@ -180,10 +212,13 @@ def direct(case):
         d['problems'].append('transform did not return a FunctionDef')
         return d
     d['problems'] += ['selected position not named: ' + b for b in shape_problems(out, cfg)]
-    temps = temp_targets(out)
-    user_temp = bool(re.search(r'\btmp_\d+\b', case['src']))
-    if not user_temp and len(set(temps)) != len(temps):
-        d['problems'].append('temporaries collide: %s' % sorted(t for t in set(temps) if temps.count(t) > 1))
+    # temporaries introduced by THIS pass = `tmp_N = ...` assignments of the output that the input did not have
+    # (the input may already assign names of that form: user code, or the output of an earlier pass)
+    intro = collections.Counter(temp_targets(out)) - collections.Counter(temp_targets(fn))
+    dup = sorted(t for t, k in intro.items() if k > 1)
+    if dup:
+        d['problems'].append('temporaries introduced by one pass collide with each other: %s' % dup)
+    temps = list(intro.elements())
     d['ntemps'] = len(temps)
     if cfg is None and d['lazy']:
         d['problems'].append('accepted a non-trivial lazy construct: %s' % d['lazy'])
